@@ -486,6 +486,16 @@ func (s *Session) Data(r io.Reader) error {
 	s.msgLock.Lock()
 	defer s.msgLock.Unlock()
 
+	// go-smtp keeps its MAIL/RCPT bookkeeping when a repeated EHLO/LHLO
+	// replaces the session, DATA can then arrive without a transaction.
+	if s.delivery == nil {
+		return &smtp.SMTPError{
+			Code:         503,
+			EnhancedCode: smtp.EnhancedCode{5, 5, 1},
+			Message:      "No valid recipients",
+		}
+	}
+
 	bodyCtx, bodyTask := trace.NewTask(s.msgCtx, "DATA")
 	defer bodyTask.End()
 
@@ -548,6 +558,16 @@ func (sw statusWrapper) SetStatus(rcpt string, err error) {
 func (s *Session) LMTPData(r io.Reader, sc smtp.StatusCollector) error {
 	s.msgLock.Lock()
 	defer s.msgLock.Unlock()
+
+	// go-smtp keeps its MAIL/RCPT bookkeeping when a repeated EHLO/LHLO
+	// replaces the session, DATA can then arrive without a transaction.
+	if s.delivery == nil {
+		return &smtp.SMTPError{
+			Code:         503,
+			EnhancedCode: smtp.EnhancedCode{5, 5, 1},
+			Message:      "No valid recipients",
+		}
+	}
 
 	bodyCtx, bodyTask := trace.NewTask(s.msgCtx, "DATA")
 	defer bodyTask.End()
